@@ -123,7 +123,17 @@ def check(tier, seed, replay=None):
             for tmpl in C19.NONARITH:
                 txt = tmpl % ((str(n),) * tmpl.count("%s"))
                 items.append((X.strip(EP.parse(txt, table)), ("obj", [(X.cps("n"), ("num", str(n)))]), [], [], txt))
-        for a, b in ((2**53 + 1, 2**53), (2**64 - 1, 2**64 - 2), (-(2**63), -(2**63) + 1), (2**63 + 1, 2**63), (9007199254740993, 9007199254740995)):
+        NEIGHBOURS = ((2**53 + 1, 2**53), (2**64 - 1, 2**64 - 2), (-(2**63), -(2**63) + 1), (2**63 + 1, 2**63), (9007199254740993, 9007199254740995))
+        # numbers are ordered by value: neighbours that share their nearest double are still different numbers
+        for a, b in NEIGHBOURS:
+            for x, y in ((a, b), (b, a), (a, a)):
+                for tmpl in ("(< %d %d)", "(<= %d %d)", "(> %d %d)", "(>= %d %d)", "(= %d %d)", "(!= %d %d)", "(sort [%d, %d])", "(sort_unique [%d, %d])",
+                             "(sort_by [{\"k\": %d}, {\"k\": %d}] .k)", "(sort_by_values {\"p\": %d, \"q\": %d})"):
+                    txt = tmpl % (x, y)
+                    items.append((X.strip(EP.parse(txt, table)), ("null",), [], [], txt))
+            for txt in ("(sort_unique [%d, %d, %d])" % (a, b, a), "(sort [%d, 1.5, %d, -1])" % (a, b)):
+                items.append((X.strip(EP.parse(txt, table)), ("null",), [], [], txt))
+        for a, b in NEIGHBOURS:
             for lst in ([a, b], [b, a], [a, 1, b], [b, "x", a, None]):
                 for f in ("sort_unique", "sort", "order_unique"):
                     bags.append(("(%s .)" % f, ("arr", [("num", str(x)) if isinstance(x, int) else ("str", X.cps(x)) if isinstance(x, str) else ("null",) for x in lst])))
